@@ -76,7 +76,7 @@ def parseConfig (m : List (String × String)) : Config :=
     env := env, cpu := { simd32 := getNat m "cpu32" 1 == 1, simd64 := getNat m "cpu64" 1 == 1 } }
 
 def acceptedLine (a : Accepted) : String :=
-  s!"C ok engine={a.engine.name} ready={b2s a.ready} prec={toBits a.q.precision} phase={toBits a.q.phase} " ++
+  s!"C ok engine={a.engine.name} conv={if a.engine.floatKernels then "f" else "d"} ready={b2s a.ready} prec={toBits a.q.precision} phase={toBits a.q.phase} " ++
   s!"pb={toBits a.q.pb} sb={toBits a.q.sb} qflags={a.q.flags} min={a.rt.minDft} large={a.rt.largeDft} " ++
   s!"kb={a.rt.coefKb} threads={a.rt.threads} rtflags={a.rt.flags} ratio={toBits a.ioRatio}"
 
@@ -131,12 +131,12 @@ def step (st : Option Api) (line : String) : Option Api × Option String :=
     | .error e => (none, some ("C err " ++ e.msg))
     | .ok a => (some (Api.ofAccepted c a), some (acceptedLine a))
   | _ =>
-    match parseOp toks with
-    | none => (st, some "bad-op")
-    | some op =>
-      match st with
-      | none => (st, some "X no-resampler")
-      | some s => let (s', r) := Soxr.Config.step s op; (some s', some (retLine r))
+    match st with
+    | none => (st, some "X no-resampler")
+    | some s =>
+      match parseOp toks with
+      | none => (st, some "bad-op")
+      | some op => let (s', r) := Soxr.Config.step s op; (some s', some (retLine r))
 
 partial def loop (h : IO.FS.Stream) (out : IO.FS.Stream) (st : Option Api) : IO Unit := do
   let line ← h.getLine
